@@ -9,6 +9,7 @@ import (
 	"context"
 	"fmt"
 	"runtime"
+	"strings"
 	"sync"
 	"sync/atomic"
 	"time"
@@ -291,8 +292,10 @@ func derived(cfg fw.Config, rec *fw.Rec, round int) {
 		s := &core.Spec{Name: "derived", Version: fmt.Sprint(k), Nodes: map[string]*core.Node{
 			"start": {ActionSource: src(), Branches: &core.Branches{Type: "bindings", Branches: []*core.Branch{{GuardSource: src(), Target: "n1"}}}},
 			"n1":    {ActionSource: src(), Branches: &core.Branches{Type: "bindings", Branches: []*core.Branch{{GuardSource: src(), Target: "n2"}}}},
-			"n2":    {ActionSource: src(), Branches: &core.Branches{Type: "bindings", Branches: []*core.Branch{{Target: "done"}}}},
-			"done":  {Branches: &core.Branches{Type: "message"}},
+			// (this guard is the same in every version and is left alone when a version is
+			// derived: the copy shares it with the version it was copied from)
+			"n2":   {ActionSource: src(), Branches: &core.Branches{Type: "bindings", Branches: []*core.Branch{{GuardSource: &core.ActionSource{Interpreter: "ecmascript", Source: "/*keep*/ return _.bindings;"}, Target: "done"}}}},
+			"done": {Branches: &core.Branches{Type: "message"}},
 		}}
 		return s, s.Compile(context.Background(), nil, true)
 	}
@@ -321,7 +324,7 @@ func derived(cfg fw.Config, rec *fw.Rec, round int) {
 				}
 				if n.Branches != nil {
 					for _, b := range n.Branches.Branches {
-						if b.GuardSource != nil {
+						if b.GuardSource != nil && !strings.HasPrefix(fmt.Sprint(b.GuardSource.Source), "/*keep*/") {
 							b.GuardSource = &core.ActionSource{Interpreter: "ecmascript", Source: stampSrc(k)}
 						}
 					}
